@@ -79,6 +79,16 @@ Qed.
 Lemma to_nat_floor_ge1 q : 1 <= q -> (1 <= Z.to_nat (Qfloor q))%nat.
 Proof. intro H. apply floor_pos in H. lia. Qed.
 
+Lemma floor_add_same c t : 0 <= t -> (c - fl c) + t < 1 -> Qfloor (c + t) = Qfloor c.
+Proof.
+  intros Ht H. pose proof (fl_le c). unfold fl in *. apply floor_unique; lra.
+Qed.
+
+Lemma floor_add_next c t : 1 <= (c - fl c) + t -> (c - fl c) + t < 2 -> Qfloor (c + t) = (Qfloor c + 1)%Z.
+Proof.
+  intros H1 H2. unfold fl in *. apply floor_unique; rewrite inject_Z_plus; change (inject_Z 1) with 1; lra.
+Qed.
+
 (* ---------- list helpers ---------- *)
 Section Lists.
   Variable Item : Type.
@@ -303,7 +313,7 @@ Section Sample.
       + (* no item deleted *)
         apply inj_eq in Hsame.
         destruct Hsome as (y & Ey & Py); [rewrite <- Hsame; lra|].
-        match type of E with context [Qle_bool ?a u] => destruct (Qle_bool a u) end; cbn [negb] in E.
+        match type of E with context [Qle_bool u ?a] => destruct (Qle_bool u a) end; cbn [negb] in E.
         * eapply (K (sdata sm) (spart sm) s1); eauto. now rewrite Hsame.
         * destruct (swap_with_partial QOps Item (sdata sm) (spart sm) s1) as [[d1 p1] s2] eqn:Esw.
           apply swap_with_partial_ok in Esw; auto; [|rewrite Hlen; lia].
@@ -330,4 +340,172 @@ Section Sample.
           destruct Esw as (Hl2 & Hd2 & Hx & Hs3). rewrite Ey in Hl2.
           eapply (K d2 p2 s3); eauto. lia.
   Qed.
+  (* ----- merge of a one-item sample ----- *)
+  Lemma shape_intro c d p :
+    0 <= c -> length d = Z.to_nat (Qfloor c) -> (p = None <-> c == fl c) ->
+    Shape (Build_sample QOps Item c d p).
+  Proof. intros. unfold Shape; cbn [sc sdata spart]. auto. Qed.
+
+  Lemma smerge_spec theta it sm s sm' s' :
+    smerge QOps Item sm (replace_content QOps Item it theta) s = (sm', s') ->
+    0 < theta -> theta <= 1 -> Shape sm -> AllP sm -> P it -> cs_ok s ->
+    Shape sm' /\ AllP sm' /\ cs_ok s' /\ sc sm' == sc sm + theta.
+  Proof.
+    intros E Ht0 Ht1 (Hc0 & Hlen & Hpart) (HPd & HPp) Hit Hs.
+    remember (sc sm) as c eqn:Ec.
+    pose proof (fl_le c) as Fc1. pose proof (fl_lt c) as Fc2.
+    assert (Hsome : fl c < c -> exists y, spart sm = Some y /\ P y).
+    { intro Hf. destruct (spart sm) as [y|] eqn:Ep; [exists y; auto|].
+      exfalso. assert (c == fl c) by (apply Hpart; auto). lra. }
+    assert (Hnone : c == fl c -> spart sm = None) by (apply Hpart).
+    unfold replace_content in E. qs.
+    destruct (qeqb_spec theta 1) as [T1|T1].
+    - (* a full item *)
+      assert (F1 : Qfloor theta = 1%Z) by (apply floor_unique; change (inject_Z 1) with 1; lra).
+      unfold smerge in E. cbn [sc sdata spart] in E. qs. rewrite <- Ec in E. rewrite F1 in E.
+      change (inject_Z 1) with 1 in E.
+      assert (Fn : Qfloor (c + theta) = (Qfloor c + 1)%Z) by (apply floor_add_next; lra).
+      destruct (qeqb_spec (c - inject_Z (Qfloor c)) 0) as [Hi|Hi]; cbn [andb] in E.
+      + destruct (qeqb_spec (theta - 1) 0) as [_|Hn]; [|exfalso; apply Hn; lra].
+        inversion E; subst sm' s'; clear E. cbn [sc]. splits; auto; try reflexivity.
+        * apply shape_intro; [lra| |].
+          -- rewrite app_length, Hlen, Fn. cbn [length]. pose proof (floor_nonneg c Hc0). lia.
+          -- split; auto. intros _. unfold fl. rewrite Fn, inject_Z_plus. change (inject_Z 1) with 1. lra.
+        * split; cbn [sdata spart]; [apply Forall_snoc; auto|discriminate].
+      + assert (Hf : fl c < c) by (destruct (frac_cases c); auto; exfalso; apply Hi; unfold fl in *; lra).
+        destruct (qeqb_spec (c - inject_Z (Qfloor c) + (theta - 1)) 1) as [Ha|_]; [unfold fl in *; lra|].
+        destruct (qeqb_spec (c + theta) (inject_Z (Qfloor (c + theta)))) as [Hb|_].
+        { exfalso. rewrite Fn, inject_Z_plus in Hb. change (inject_Z 1) with 1 in Hb. unfold fl in *. lra. }
+        cbn [orb] in E.
+        destruct (qleb_spec 1 (c - inject_Z (Qfloor c) + (theta - 1))) as [Hc1|_]; [unfold fl in *; lra|].
+        cbn [negb] in E.
+        destruct (draw_unit QOps s) as [u s1] eqn:Eu. apply draw_unit_ok in Eu; auto. destruct Eu as (Hu0 & Hu1 & Hs1).
+        destruct (qleb_spec u ((c - inject_Z (Qfloor c)) / (c - inject_Z (Qfloor c) + (theta - 1)))) as [_|Hlt].
+        2:{ exfalso. apply div_lt_l in Hlt; unfold fl in *; nra. }
+        cbn [negb] in E. inversion E; subst sm' s'; clear E. cbn [sc]. splits; auto; try reflexivity.
+        * apply shape_intro; [lra| |].
+          -- rewrite app_length, Hlen, Fn. cbn [length]. pose proof (floor_nonneg c Hc0). lia.
+          -- split; intro H.
+             ++ apply Hpart in H. unfold fl in *. lra.
+             ++ exfalso. unfold fl in H. rewrite Fn, inject_Z_plus in H. change (inject_Z 1) with 1 in H. unfold fl in *. lra.
+        * split; cbn [sdata spart]; [apply Forall_snoc; auto|auto].
+    - (* a partial item *)
+      assert (T2 : theta < 1) by (destruct (Qlt_le_dec theta 1); auto; exfalso; apply T1; lra).
+      assert (F0 : Qfloor theta = 0%Z) by (apply floor_unique; change (inject_Z 0) with 0; lra).
+      unfold smerge in E. cbn [sc sdata spart] in E. qs. rewrite <- Ec in E. rewrite F0 in E.
+      change (inject_Z 0) with 0 in E. rewrite app_nil_r in E.
+      destruct (qeqb_spec (theta - 0) 0) as [Hz|_]; [lra|]. rewrite andb_false_r in E.
+      unfold fl in *.
+      set (cf := c - inject_Z (Qfloor c)) in *.
+      assert (Hcf : 0 <= cf /\ cf < 1) by (unfold cf; lra).
+      destruct (Qlt_le_dec (cf + theta) 1) as [Lt1|Ge1].
+      + (* no new full item *)
+        assert (Fn : Qfloor (c + theta) = Qfloor c) by (apply floor_add_same; unfold fl; fold cf; lra).
+        destruct (qeqb_spec (cf + (theta - 0)) 1) as [Ha|_]; [lra|].
+        destruct (qeqb_spec (c + theta) (inject_Z (Qfloor (c + theta)))) as [Hb|Hb]; [rewrite Fn in Hb; unfold cf in *; lra|].
+        cbn [orb] in E.
+        destruct (qleb_spec 1 (cf + (theta - 0))) as [Hc1|_]; [lra|]. cbn [negb] in E.
+        destruct (draw_unit QOps s) as [u s1] eqn:Eu. apply draw_unit_ok in Eu; auto. destruct Eu as (Hu0 & Hu1 & Hs1).
+        assert (Sh : forall p, (exists x, p = Some x /\ P x) ->
+                     Shape (Build_sample QOps Item (c + theta) (sdata sm) p) /\ AllP (Build_sample QOps Item (c + theta) (sdata sm) p)).
+        { intros p (x & -> & Hx). split.
+          - apply shape_intro; [lra|now rewrite Fn|]. split; [discriminate|]. intro H. exfalso. apply Hb. exact H.
+          - split; cbn [sdata spart]; auto. intros y Hy; inversion Hy; subst; auto. }
+        destruct (qleb_spec u (cf / (cf + (theta - 0)))) as [Hle|Hlt]; cbn [negb] in E.
+        * inversion E; subst sm' s'; clear E. cbn [sc].
+          destruct (Sh (spart sm)) as [A B]; [|splits; auto; reflexivity].
+          apply Hsome. apply div_le_r in Hle; [|lra]. unfold cf in *. nra.
+        * inversion E; subst sm' s'; clear E. cbn [sc].
+          destruct (Sh (Some it)) as [A B]; [eauto|splits; auto; reflexivity].
+      + assert (Fn : Qfloor (c + theta) = (Qfloor c + 1)%Z) by (apply floor_add_next; unfold fl; fold cf; lra).
+        assert (Hf : inject_Z (Qfloor c) < c) by (unfold cf in *; lra).
+        destruct (Hsome Hf) as (y & Ey & Py).
+        assert (Ln : length (sdata sm ++ [y]) = Z.to_nat (Qfloor (c + theta)) /\ length (sdata sm ++ [it]) = Z.to_nat (Qfloor (c + theta))).
+        { rewrite !app_length, Hlen, Fn. cbn [length]. pose proof (floor_nonneg c Hc0). lia. }
+        destruct Ln as [Ln1 Ln2].
+        destruct (qeqb_spec (cf + (theta - 0)) 1) as [Ha|Ha].
+        * (* exactly one: the sum is integral *)
+          cbn [orb] in E.
+          destruct (draw_unit QOps s) as [u s1] eqn:Eu. apply draw_unit_ok in Eu; auto. destruct Eu as (Hu0 & Hu1 & Hs1).
+          assert (Hint : c + theta == inject_Z (Qfloor (c + theta))).
+          { rewrite Fn, inject_Z_plus. change (inject_Z 1) with 1. unfold cf in *. lra. }
+          rewrite Ey in E. cbn [app_opt] in E.
+          destruct (Qle_bool u cf); inversion E; subst sm' s'; clear E; cbn [sc]; splits; auto; try reflexivity.
+          -- apply shape_intro; [lra|auto|]. split; auto.
+          -- split; cbn [sdata spart]; [apply Forall_snoc; auto|discriminate].
+          -- apply shape_intro; [lra|auto|]. split; auto.
+          -- split; cbn [sdata spart]; [apply Forall_snoc; auto|discriminate].
+        * destruct (qeqb_spec (c + theta) (inject_Z (Qfloor (c + theta)))) as [Hb|Hb].
+          { exfalso. rewrite Fn, inject_Z_plus in Hb. change (inject_Z 1) with 1 in Hb. apply Ha. unfold cf in *. lra. }
+          cbn [orb] in E.
+          destruct (qleb_spec 1 (cf + (theta - 0))) as [_|Hc1]; [|lra]. cbn [negb] in E.
+          destruct (draw_unit QOps s) as [u s1] eqn:Eu. apply draw_unit_ok in Eu; auto. destruct Eu as (Hu0 & Hu1 & Hs1).
+          rewrite Ey in E.
+          destruct (Qle_bool u _); inversion E; subst sm' s'; clear E; cbn [sc]; splits; auto; try reflexivity.
+          -- apply shape_intro; [lra|auto|]. split; [discriminate|]. intro H; exfalso; apply Hb; exact H.
+          -- split; cbn [sdata spart]; [apply Forall_snoc; auto|]. intros z Hz; inversion Hz; subst; auto.
+          -- apply shape_intro; [lra|auto|]. split; [discriminate|]. intro H; exfalso; apply Hb; exact H.
+          -- split; cbn [sdata spart]; [apply Forall_snoc; auto|]. intros z Hz; inversion Hz; subst; auto.
+  Qed.
 End Sample.
+
+(* ---------- the sketch ---------- *)
+Definition is_min (r a b : Q) : Prop := r <= a /\ r <= b /\ (r == a \/ r == b).
+
+Lemma nmin_is_min a b : is_min (nmin QOps a b) a b.
+Proof.
+  unfold nmin, is_min; qs. destruct (qleb_spec a b); cbn [negb]; splits; try lra;
+    first [left; reflexivity | right; reflexivity].
+Qed.
+
+Lemma nmax_spec a b : a <= nmax QOps a b /\ b <= nmax QOps a b /\ (nmax QOps a b = a \/ nmax QOps a b = b).
+Proof.
+  unfold nmax; qs. destruct (qleb_spec b a); cbn [negb]; splits; try lra; auto.
+Qed.
+
+Section Sketch.
+  Variable Item : Type.
+  Variable P : Item -> Prop.
+  Notation qsketch := (sketch QOps Item).
+
+  Lemma shape_ok_true sm : Shape Item sm -> shape_ok QOps Item sm = true.
+  Proof.
+    intros (H0 & Hl & Hp). unfold shape_ok. qs. rewrite Qfloor_Z, Hl, Nat.eqb_refl. cbn [andb].
+    destruct (qeqb_spec (sc sm - inject_Z (Qfloor (sc sm))) 0) as [E|E]; cbn [negb].
+    - assert (H : spart sm = None) by (apply Hp; unfold fl; lra). now rewrite H.
+    - destruct (spart sm) eqn:Ep; auto. exfalso. apply E.
+      assert (H : sc sm == fl (sc sm)) by now apply Hp. unfold fl in *; lra.
+  Qed.
+
+  Lemma feed_spec k wm it dw th cw rho sm s cw' rho' sm' s' :
+    feed QOps Item k wm it dw th (cw, rho, sm) s = ((cw', rho', sm'), s') ->
+    let nr := nmin QOps (1 / wm) (inject_Z k / (cw + dw)) in
+    0 <= cw -> 0 < dw -> 0 < rho -> 0 < nr -> (0 < cw -> nr <= rho) ->
+    th nr == nr * dw -> nr * dw <= 1 ->
+    sc sm == rho * cw -> Shape Item sm -> AllP Item P sm -> P it -> cs_ok s ->
+    cw' = cw + dw /\ rho' = nr /\ sc sm' == nr * (cw + dw) /\ Shape Item sm' /\ AllP Item P sm' /\ cs_ok s'.
+  Proof.
+    unfold feed. qs. intros E nr Hcw Hdw Hrho Hnr Hle Hth Hth1 Hc Hsh HP Hit Hs. fold nr in E.
+    destruct (if negb (Qle_bool cw 0) then downsample QOps Item (nr / rho) sm s else (sm, s)) as [sm1 s1] eqn:Ed.
+    assert (D : Shape Item sm1 /\ AllP Item P sm1 /\ cs_ok s1 /\ sc sm1 == nr * cw).
+    { destruct (qleb_spec cw 0) as [Hz|Hpos]; cbn [negb] in Ed.
+      - inversion Ed; subst sm1 s1. splits; auto. nra.
+      - apply downsample_spec with (P := P) in Ed; auto.
+        + destruct Ed as (A & B & C & D1 & D2). splits; auto.
+          destruct (Qlt_le_dec (nr / rho) 1) as [Hlt|Hge].
+          * rewrite (D1 Hlt), Hc. field. lra.
+          * rewrite (D2 Hge). apply div_le_r in Hge; auto. specialize (Hle Hpos). rewrite Hc. nra.
+        + apply Qlt_shift_div_l; lra.
+        + rewrite Hc. nra. }
+    destruct D as (Sh1 & P1 & Hs1 & Hc1).
+    rewrite (shape_ok_true sm Hsh), (shape_ok_true sm1 Sh1) in E. cbn [andb negb] in E.
+    rewrite note_site_false in E.
+    destruct (smerge QOps Item sm1 (replace_content QOps Item it (th nr)) s1) as [sm2 s2] eqn:Em.
+    apply smerge_spec with (P := P) in Em; auto.
+    - destruct Em as (Sh2 & P2 & Hs2 & Hc2).
+      rewrite (shape_ok_true sm2 Sh2) in E. cbn [andb negb] in E. rewrite note_site_false in E.
+      inversion E; subst. splits; auto. rewrite Hc2, Hc1, Hth. ring.
+    - rewrite Hth. nra.
+    - rewrite Hth. exact Hth1.
+  Qed.
+End Sketch.
